@@ -205,7 +205,7 @@ def run(ctx, rep, tier):
     rep.check(model.has("CodegenCtx._get_state_object_out_declaration", "self._integer_containing(signed=out_decl.int_signed, width=out_decl.int_width)"), "C14.d", "CodegenCtx._get_state_object_out_declaration",
               "int outputs declared from their signedness and width", "int declaration no longer uses the declared sign/width")
     po = ast.unparse(model.func("ParseCtx._parse_out_decl"))
-    rep.check(model.has("ParseCtx._parse_out_decl", "kwargs['int_signed'] = attr.children[0].value == 'signed'") and model.has("ParseCtx._parse_out_decl", "kwargs['int_width'] = int(attr.children[0].value)"), "C14.d", "ParseCtx._parse_out_decl",
+    rep.check(model.has("ParseCtx._parse_out_decl", "kwargs['int_signed'] = attr.children[0].value == 'signed'") and (model.has("ParseCtx._parse_out_decl", "kwargs['int_width'] = int(attr.children[0].value)") or model.has("ParseCtx._parse_out_decl", "kwargs['int_width'] = self._convert_int(attr.children[0].value)")), "C14.d", "ParseCtx._parse_out_decl",
               "signed/size attributes parsed", "int attribute parsing changed")
 
     # ------------------------------------------------------------------ C14.e same renderer everywhere
